@@ -22,10 +22,12 @@ Apply(o) ==
 
 ViewOf(c) == [exists |-> c.exists, code |-> IF c.exists THEN ToString(c.code) ELSE "", label |-> c.label, admin |-> c.admin,
               mark |-> c.mark, count |-> IF c.exists THEN ToString(c.count) ELSE "", bal |-> IF c.exists THEN ToString(c.bal) ELSE ""]
+FundsText(f) == CASE f = 0 -> "" [] f = 7 -> "4zeta,3atom" [] OTHER -> ToString(f) \o "atom"      \* what the handler was handed, in the order given
 ViewMatches(v, c) ==
     /\ v.exists = c.exists
     /\ c.exists => /\ v.code = ToString(c.code) /\ v.label = c.label /\ v.admin = c.admin
                    /\ v.mark = c.mark /\ v.count = ToString(c.count) /\ v.bal = ToString(c.bal)
+                   /\ v.funds = FundsText(c.funds)
 MethodOfOp(o) == IF o.op = "instantiate" THEN InstM ELSE IF o.op = "migrate" THEN MigM ELSE PM(o).m
 OkAttrs(m) == << <<"h", m.name>>, <<"code", ToString(m.code)>> >>
 QRespJson(m) ==
